@@ -400,13 +400,38 @@ func (g *gMux) opWriteData(d *MuxerData, u gUnit) {
 
 // opWritePacket: a caller-built packet; oversize payloads must be rejected without leaving bytes behind
 func (g *gMux) opWritePacket(payloadLen int) {
+	g.opWritePacketAF(payloadLen, 0)
+}
+
+// opWritePacketAF: afKind 0 none, 1 PCR + 2 stuffing bytes, 2 one-byte adaptation field, 3 private data (5 bytes);
+// over = how many bytes the payload exceeds the room left by header and adaptation field
+func (g *gMux) opWritePacketAF(payloadLen, afKind int) {
 	g.rawPackets = true
 	m := &mPacket{hasPayload: true}
 	vModelHeader(m)
+	room := 184
+	switch afKind {
+	case 1:
+		m.hasAF = true
+		m.af = mAF{hasPCR: true, pcrBase: vTS33(), pcrExt: vBits16(9), stuffing: 2}
+		room = 184 - 1 - refAFLen(&m.af)
+	case 2:
+		m.hasAF = true
+		m.af = mAF{zeroLen: true}
+		room = 183
+	case 3:
+		m.hasAF = true
+		m.af = mAF{hasPriv: true, priv: vnondetBytes(5)}
+		room = 184 - 1 - refAFLen(&m.af)
+	}
+	if afKind != 0 {
+		// payloadLen is given relative to the room: 184 = exact fit, 185 = one byte over, ...
+		payloadLen = room + (payloadLen - 184)
+	}
 	m.payload = vnondetBytes(payloadLen)
 	n, err := g.m.WritePacket(modelToPacket(m))
 	out := g.sink.buf[g.pos:]
-	if payloadLen > 184 {
+	if payloadLen > room {
 		vassert("C04.packet.oversize.err", err != nil)
 		vassertK("C04.packet.oversize.nooutput", "F6", true, len(out) == 0 && n == 0)
 	} else {
@@ -419,8 +444,8 @@ func (g *gMux) opWritePacket(payloadLen int) {
 
 // demuxAll feeds everything the sink received to a fresh Demuxer and compares with what was written (C01)
 func (g *gMux) demuxAll() {
-	if g.rawPackets || g.autoPID || g.afOverflow {
-		// caller-built packets are outside C01; histories that ran into the recorded findings F3/F4 (reported by the
+	if g.rawPackets || g.afOverflow {
+		// caller-built packets are outside C01; histories that ran into the recorded finding F4 (reported by the
 		// assertions above) produce streams a demuxer cannot map back to the calls
 		return
 	}
@@ -546,7 +571,7 @@ func HarnessMuxWriteData(afCase, hdrCase, lenIdx, prior int) {
 func HarnessMuxHistory(steps, period int) {
 	g := newGMux(period)
 	// PIDs are concrete here (their values only matter through equality); HarnessMuxWriteData has a symbolic PID
-	pidA, pidB := uint16(0x101), uint16(0x1ffe)
+	pidA, pidB := uint16(0x100), uint16(0x1ffe)
 	for s := 0; s < steps; s++ {
 		switch vrange(0, 7) {
 		case 0:
@@ -601,14 +626,14 @@ func HarnessMuxWrap() {
 //        tablesRetransmitCounter in [0,period] = WriteData calls since the last emission.
 func vMuxState(k, period int) *gMux {
 	g := newGMux(period)
-	pids := []uint16{0x101, 0x1ffe, 0x0021}
+	pids := []uint16{0x100, 0x1ffe, 0x0021}
 	for i := 0; i < k; i++ {
 		g.opAdd(pids[i], StreamType(vnondetU8()))
 	}
 	if k > 0 {
 		g.opSetPCR(pids[vrange(0, k-1)])
 	} else if vnondetBool() {
-		g.opSetPCR(0x101)
+		g.opSetPCR(0x100)
 	}
 	m := g.m
 	// counters
@@ -674,7 +699,7 @@ func (g *gMux) checkInv() {
 func HarnessMuxStep(op, k, period, level int) {
 	g := vMuxState(k, period)
 	g.pos = len(g.sink.buf)
-	pids := []uint16{0x101, 0x1ffe, 0x0021, 0x0444}
+	pids := []uint16{0x100, 0x1ffe, 0x0021, 0x0444}
 	switch op {
 	case 0:
 		g.opAdd(pids[vrange(0, 3)], StreamType(vnondetU8()))
@@ -699,13 +724,13 @@ func HarnessMuxStep(op, k, period, level int) {
 		d, u := vMuxData(pids[vrange(0, 1)], 3, 1, 20)
 		g.opWriteData(d, u)
 	case 7:
-		g.opWritePacket(vchoose(0, 184, 185))
+		g.opWritePacketAF(vchoose(184, 185, 186), vrange(0, 3))
 	}
 	g.checkInv()
 	vreach("mux.step.end")
 }
 
-// HarnessMuxScript: a fixed operation script (digits, most significant first): 1 add A, 2 add B, 3 remove A,
+// HarnessMuxScript: a fixed operation script (digits, most significant first): 0 add with automatic PID, 1 add A, 2 add B, 3 remove A,
 // 4 set PCR A, 5 set PCR to an unknown PID, 6 WriteTables, 7 WriteData A, 8 WriteData A with an adaptation field that
 // leaves no room for the PES header, 9 WriteData B
 func HarnessMuxScript(script, period int) {
@@ -714,9 +739,11 @@ func HarnessMuxScript(script, period int) {
 	for x := script; x > 0; x /= 10 {
 		ops = append([]int{x % 10}, ops...)
 	}
-	pidA, pidB := uint16(0x101), uint16(0x1ffe)
+	pidA, pidB := uint16(0x100), uint16(0x1ffe)
 	for _, op := range ops {
 		switch op {
+		case 0:
+			g.opAdd(0, StreamTypeAACAudio) // automatic PID
 		case 1:
 			g.opAdd(pidA, StreamType(vnondetU8()))
 		case 2:
@@ -742,4 +769,40 @@ func HarnessMuxScript(script, period int) {
 	}
 	g.demuxAll()
 	vreach("mux.script.end")
+}
+
+// HarnessMuxPeriod: configured retransmit period p (including values around and above the default of 40): tables
+// precede the first unit and come again exactly with the call that makes p calls since the last emission
+func HarnessMuxPeriod(p int) {
+	g := newGMux(p)
+	g.opAdd(0x100, StreamTypeAACAudio)
+	g.opSetPCR(0x100)
+	for k := 0; k < p+2; k++ {
+		d, u := vMuxData(0x100, 0, 1, 3)
+		g.opWriteData(d, u)
+	}
+	vreach("mux.period.end")
+}
+
+// HarnessMuxBig: payloads around the 65535-byte PES_packet_length limit (concrete pattern payload, symbolic PTS),
+// muxed and demuxed again
+func HarnessMuxBig(plen, audio int) {
+	g := newGMux(5)
+	typ := StreamTypeH264Video
+	if audio == 1 {
+		typ = StreamTypeAACAudio
+	}
+	g.opAdd(0x100, typ)
+	g.opSetPCR(0x100)
+	for k := 0; k < 2; k++ {
+		d, u := vMuxData(0x100, 0, 1, 0)
+		u.payload = make([]byte, plen)
+		for i := range u.payload {
+			u.payload[i] = 0x80 | byte(i%32) | byte(k)<<6&0x40
+		}
+		d.PES.Data = u.payload
+		g.opWriteData(d, u)
+	}
+	g.demuxAll()
+	vreach("mux.big.end")
 }
